@@ -74,7 +74,7 @@ OPU(tdiv_q_ui) OPU(fdiv_q_ui) OPU(cdiv_q_ui)
 #define OP4(fn) static int op_##fn(int argc, tok_t *a, out_t *o) { return run(argc, a, o, 0, mpz_##fn); }
 #define OP3(fn) static int op_##fn(int argc, tok_t *a, out_t *o) { return run(argc, a, o, mpz_##fn, 0); }
 OP4(tdiv_qr) OP4(fdiv_qr) OP4(cdiv_qr)
-OP3(tdiv_q) OP3(tdiv_r) OP3(fdiv_q) OP3(fdiv_r) OP3(cdiv_q) OP3(cdiv_r) OP3(mod) OP3(divexact) OP3(and) OP3(ior) OP3(xor)
+OP3(tdiv_q) OP3(tdiv_r) OP3(fdiv_q) OP3(fdiv_r) OP3(cdiv_q) OP3(cdiv_r) OP3(mod) OP3(divexact) OP3(and) OP3(ior) OP3(xor) OP3(gcd)
 typedef void (*f2_t)(mpz_ptr, mpz_srcptr);
 static void com3(mpz_ptr w, mpz_srcptr u, mpz_srcptr unused) { (void)unused; mpz_com(w, u); }
 static int op_com(int argc, tok_t *a, out_t *o) { return run(argc, a, o, com3, 0); }
@@ -112,7 +112,7 @@ const opdef_t ops_alias[] = {
   {"alias_tdiv_qr", op_tdiv_qr}, {"alias_fdiv_qr", op_fdiv_qr}, {"alias_cdiv_qr", op_cdiv_qr},
   {"alias_tdiv_q", op_tdiv_q}, {"alias_tdiv_r", op_tdiv_r}, {"alias_fdiv_q", op_fdiv_q}, {"alias_fdiv_r", op_fdiv_r},
   {"alias_cdiv_q", op_cdiv_q}, {"alias_cdiv_r", op_cdiv_r}, {"alias_mod", op_mod},
-  {"alias_and", op_and}, {"alias_ior", op_ior}, {"alias_xor", op_xor}, {"alias_com", op_com}, {"alias_neg", op_neg}, {"alias_abs", op_abs}, {"alias_set", op_set},   /* alias_com w u _ _ … */
+  {"alias_gcd", op_gcd}, {"alias_and", op_and}, {"alias_ior", op_ior}, {"alias_xor", op_xor}, {"alias_com", op_com}, {"alias_neg", op_neg}, {"alias_abs", op_abs}, {"alias_set", op_set},   /* alias_com w u _ _ … */
   {"alias_tdiv_q_ui", op_tdiv_q_ui}, {"alias_fdiv_q_ui", op_fdiv_q_ui}, {"alias_cdiv_q_ui", op_cdiv_q_ui},
   {"alias_mul_2exp", op_mul_2exp}, {"alias_tdiv_q_2exp", op_tdiv_q_2exp},
   {"alias_cdiv_q_2exp", op_cdiv_q_2exp}, {"alias_fdiv_q_2exp", op_fdiv_q_2exp},
